@@ -1312,12 +1312,49 @@ def apply_at_anchors(src, item, ed, spec):
             continue
         else:
             raise Unsupported(f"anchor kind {kind}")
+        if at.get("contains"):
+            # the candidate is named by what it says, not by where it stands
+            want = at["contains"].replace(" ", "")
+            c = [n for n in c if want in re.sub(r"\s+", "", src.text(*n["range"]))]
         k = int(ordn or 0)
         if k >= len(c):
+            if at.get("optional"):
+                # a hint ABOUT that statement: where the statement is not there, there is nothing to say
+                continue
             raise LostAnchor(f"anchor {at['anchor']} {sel or ''} of {spec['path']}")
         n = c[k]
         pos_kind = at.get("pos", "before")
         txt = at["text"].strip()
+        if pos_kind in ("before_stmt", "after_stmt"):
+            # the statement (of the innermost block) the node is part of
+            blks = [b for b in nodes_of(item, "stmts_block") if b["range"][0] <= n["range"][0] and n["range"][1] <= b["range"][1]]
+            st = None
+            if blks:
+                b = min(blks, key=lambda b: b["range"][1] - b["range"][0])
+                st = next((x for x in b["stmts"] if x[0] <= n["range"][0] and n["range"][1] <= x[1]), None)
+            if st is None and item.get("stmts"):
+                # the function's own body (its statements are recorded on the item)
+                st = next((x for x in item["stmts"] if x[0] <= n["range"][0] and n["range"][1] <= x[1]), None)
+            arms = [a for a in nodes_of(item, "arm") if not a["body_is_block"] and a["body"][0] <= n["range"][0] and n["range"][1] <= a["body"][1]]
+            if arms:
+                a = min(arms, key=lambda a: a["body"][1] - a["body"][0])
+                if st is None or (st[0] <= a["body"][0] and a["body"][1] <= st[1]):
+                    # the node is (part of) a bare arm body: that expression is "its statement"
+                    if pos_kind != "before_stmt":
+                        raise Unsupported("after-anchor on a bare arm body")
+                    ed.insert(a["body"][0], "{ " + txt + " ", "ghost")
+                    ed.insert(a["body"][1], " }", "ghost")
+                    continue
+            if st is not None:
+                if pos_kind == "before_stmt":
+                    ed.insert(st[0], txt + "\n", "ghost")
+                else:
+                    e = st[1]
+                    if src.data[e:e + 1] == b";":
+                        e += 1
+                    ed.insert(e, "\n" + txt + "\n", "ghost")
+                continue
+            raise LostAnchor(f"statement holding anchor {at['anchor']} {sel or ''} of {spec['path']}")
         if kind == "arm":
             # hint at the start of the arm body
             if n["body_is_block"]:
